@@ -300,7 +300,10 @@ def stepsOfH (cfg : Cfg) (deltaThreshold chunk : Nat) (suffix : String) (h : Hin
   | .update =>
     match t.payload with
     | .nothing => []
-    | .dir => []                                   -- transfer.rs:276-278
+    -- `Transferrer::update` of a directory entry (fix 862af11; planned only for a destination link standing where
+    -- the source has a directory): `read_link` probe, `remove(path, false)` of a link — one conditional unlink,
+    -- like `remove_if_symlink` —, then `create_dir_all`
+    | .dir => [Step.unlinkIfSymlink t.rel] ++ dirSteps t.rel
     | .symlink text => symlinkSteps old t.rel text
     | .file m _ =>
       if h.route = .followed then fullCopySteps t.rel m chunk h
